@@ -44,6 +44,9 @@ SIG_F10 = ("C09:F10 Learner2D.ask(tell_pending=False) rewrites _stack (and leave
 SIG_F27 = ("C09:F27 Learner2D interpolates over pending_points in set iteration order: after ask(tell_pending=False) (points added "
            "and discarded again, or a snapshot/restore) the same pending points give answers that differ in the last digits and then "
            "in the point chosen")
+SIG_F29 = ("C09:F29 LearnerND keeps outdated entries in _simplex_queue (sub-simplices of discarded or re-built sub-triangulations, "
+           "revived with an old loss when vertex numbers are reused): ask(n, True) consumes them, ask(n, False) + "
+           "tell_pending(each) does not, later asks differ")
 SIG_F28 = ("C09:F28 IntegratorLearner sums igral and err over a set of intervals: after the snapshot/restore of "
            "ask(tell_pending=False) the same intervals are summed in another order and loss() differs in the last bit")
 SIG_F17 = ("C09:F17 BalancingLearner.ask(tell_pending=False) resets AverageLearner1D children to default parameters "
@@ -220,13 +223,26 @@ def script_long(rng):
 
 
 def _same_answer(ob, ox, imp_rel):
+    """True / False, or "close" when the answers agree only within the tolerance (geometry computed in another order)."""
     if G.answer_key(ob) == G.answer_key(ox):
         return True
     if not imp_rel or G.is_exc(ob) or G.is_exc(ox) or ob[0] != "ask" or ox[0] != "ask":
         return False
     import math
-    return G.canon(ob[1]) == G.canon(ox[1]) and len(ob[2]) == len(ox[2]) and \
-        all(a == b or math.isclose(a, b, rel_tol=imp_rel) for a, b in zip(ob[2], ox[2]))
+    import numpy as np
+    if len(ob[1]) != len(ox[1]) or len(ob[2]) != len(ox[2]):
+        return False
+    def flat(v):
+        return [float(v)] if not isinstance(v, (list, tuple)) else [y for x in v for y in flat(x)]
+    try:
+        pa, pb = np.asarray(flat(ob[1])), np.asarray(flat(ox[1]))
+    except Exception:  # noqa: BLE001
+        return False
+    if pa.shape != pb.shape or not np.allclose(pa, pb, rtol=1e-12, atol=1e-14):
+        return False
+    if not all(a == b or math.isclose(a, b, rel_tol=imp_rel) for a, b in zip(ob[2], ox[2])):
+        return False
+    return True if G.canon(ob[1]) == G.canon(ox[1]) else "close"
 
 
 def run_continuation(ad, X, B, rng, script=None, who="the untouched twin", imp_rel=0.0):
@@ -238,8 +254,11 @@ def run_continuation(ad, X, B, rng, script=None, who="the untouched twin", imp_r
         if what in ("ask", "askf", "discard"):
             op = ["remove_unfinished"] if what == "discard" else ["ask", k, what == "ask"]
             ob, ox = G.apply_op(ad, B, op), G.apply_op(ad, X, op)
-            if not _same_answer(ob, ox, imp_rel):
+            same = _same_answer(ob, ox, imp_rel)
+            if not same:
                 return f"{op} answered {G.short(ox)} but {who} answered {G.short(ob)}", op
+            if same == "close":
+                return None, None       # same points up to the last bit: the twins can no longer be driven with identical tells
             if G.is_exc(ob):
                 return None, None
             if what == "ask":
@@ -322,6 +341,70 @@ class _FsumIntegrals:
 
     def __exit__(self, *a):
         self.cls.igral, self.cls.err = self.orig
+
+
+def normalise_lnd_queues(ad, l):
+    """Counterfactual used only for attribution (F29): drop from every LearnerND's queue the entries that are not the
+    current loss of an existing (sub-)simplex, and duplicates."""
+    import math
+    from adaptive.learner import learnerND as m
+    for a, b in leaves(ad, l):
+        if a.spec["kind"] != "LND" or b.tri is None:
+            continue
+        keep, seen = [], set()
+        for loss, simplex, sub in b._simplex_queue:
+            if simplex not in b.tri.simplices or (simplex, sub) in seen:
+                continue
+            if sub is None:
+                ok = simplex not in b._subtriangulations and b._losses.get(simplex) == loss
+            else:
+                st = b._subtriangulations.get(simplex)
+                ok = st is not None and sub in st.simplices and math.isclose(
+                    loss, st.volume(sub) * b._losses[simplex] / b.tri.volume(simplex), rel_tol=1e-9)
+            if ok:
+                seen.add((simplex, sub))
+                keep.append((loss, simplex, sub))
+        b._simplex_queue = m.SortedKeyList(keep, key=m._simplex_evaluation_priority)
+
+
+def commit_later_with_clean_queues(ad, H, n, seed):
+    """The committing-ask experiment on twins whose LearnerND queues were cleaned first; the difference or None."""
+    C, D = G.replay(ad, H), G.replay(ad, H)
+    for l in (C, D):
+        normalise_lnd_queues(ad, l)
+    rc = G.apply_op(ad, C, ["ask", n, True])
+    rd = G.apply_op(ad, D, ["ask", n, False])
+    if G.is_exc(rc) or G.is_exc(rd) or G.answer_key(rc) != G.answer_key(rd):
+        return "answers differ"
+    for p in rd[1]:
+        G.apply_op(ad, D, ["tell_pending", p])
+    for l in (C, D):
+        normalise_lnd_queues(ad, l)
+        if ad.spec["kind"] == "Bal":
+            l._loss, l._pending_loss = {}, {}
+    if ad.spec["kind"] == "Bal" and getattr(C, "_strategy", None) == "cycle":
+        restore_balancing_private(D, save_balancing_private(D)[:3] + (cycle_pos(C),))
+    rng = random.Random(seed + 13)
+    return run_continuation(ad, C, D, rng, script_long(rng), "the other twin", imp_rel=1e-9)[0]
+
+
+class _PurgeStaleQueue:
+    """Counterfactual used only for attribution (F29): LearnerND.remove_unfinished also drops the queue entries of
+    sub-simplices."""
+
+    def __enter__(self):
+        from adaptive.learner import learnerND as m
+        self.cls, self.orig = m.LearnerND, m.LearnerND.remove_unfinished
+        orig = self.orig
+
+        def remove_unfinished(lrn):
+            orig(lrn)
+            lrn._simplex_queue = m.SortedKeyList((e for e in lrn._simplex_queue if e[2] is None), key=m._simplex_evaluation_priority)
+        m.LearnerND.remove_unfinished = remove_unfinished
+        return self
+
+    def __exit__(self, *a):
+        self.cls.remove_unfinished = self.orig
 
 
 class _SortedSet(set):
@@ -471,6 +554,15 @@ def probe_state(ad, H, n, seed, _counterfactual=False):
                 known = attribute_commit_later(ad, H, n, seed, rd)
                 if known:
                     return [(known, f"{name} after {len(H)} ops, after ask({n}, True): {m}")], True
+            if m and G.base_kind(ad.spec) == "LND" and not _counterfactual:
+                with _PurgeStaleQueue():
+                    cf, _ = probe_state(ad, H, n, seed, _counterfactual=True)
+                if not cf:
+                    return [(SIG_F29, f"{name} after {len(H)} ops, after ask({n}, True): {m} (vanishes when remove_unfinished also "
+                                      f"drops the sub-simplex entries of the queue)")], True
+                if not commit_later_with_clean_queues(ad, H, n, seed):
+                    return [(SIG_F29, f"{name} after {len(H)} ops, after ask({n}, True): {m} (vanishes when the outdated entries are "
+                                      f"removed from _simplex_queue before the asks)")], True
             if m:
                 fails.append((f"C09:{G.spec_name(_sig_spec(ad.spec))}:commit-later",
                               f"{name} after {len(H)} ops, after ask({n}, True): {m}"))
